@@ -242,9 +242,50 @@ pub fn multi_scenario(name: &str, n: usize, x: usize, max_r: usize, alpha_n: usi
 	s
 }
 
+/// Growth in progress (the 64 keys of the full page still live in the old index) while the page of the NEW index that
+/// they will move to fills up with 64 later keys; then a key that still lives in the old index is replaced by a value of
+/// another size class (its index entry has to be re-inserted into the new index, whose page is full), or removed.
+pub fn full_new_page_scenario(name: &str, n: usize, x: usize, max_r: usize) -> Scenario {
+	let mut spec = ColSpec::hash();
+	spec.uniform = true;
+	let mut cfg = Config::new(vec![spec]);
+	cfg.salt = 0;
+	let over: Tx = vec![(0, Op::Set(page_key(C, 64), val(64)))];
+	// 63 more keys of the same half of the page: together with key 64 they fill the page of the 17-bit index
+	let more: Tx = (65..128u8).map(|i| (0u8, Op::Set(page_key(C, i), val(i as u32)))).collect();
+	let alpha: Vec<Tx> = vec![
+		more.clone(),
+		// key 5 still lives in the old index: new value in another size class (8 -> 5000 bytes)
+		vec![(0, Op::Set(page_key(C, 5), B::pat(5000, 905)))],
+		vec![(0, Op::Del(page_key(C, 6))), (0, Op::Set(page_key(C, 7), B::pat(300, 907)))],
+	];
+	let mut all = alpha.clone();
+	all.push(fill_tx());
+	all.push(over.clone());
+	let mut s = Scenario::new(name, cfg.clone(), alpha);
+	s.universe = universe_of(&cfg, &all, &[]);
+	s.init = vec![Ev::Commit(fill_tx()), Ev::Drain, Ev::Commit(over), Ev::Stage(St::P), Ev::Stage(St::F), Ev::Stage(St::E)];
+	s.max_commits = n;
+	s.max_rejects = 0;
+	s.max_reopen = x;
+	s.stages = vec![St::P, St::F, St::E, St::R];
+	// the i-th commit is the i-th transaction of the alphabet; at most `max_r` reindex events
+	let a2 = s.alphabet.clone();
+	s.filter = Some(Arc::new(move |hist: &[Ev], ev: &Ev| match ev {
+		Ev::Stage(St::R) => hist.iter().filter(|e| matches!(e, Ev::Stage(St::R))).count() < max_r,
+		Ev::Commit(tx) => {
+			let k = hist.iter().filter(|e| matches!(e, Ev::Commit(_))).count();
+			a2.get(k).map_or(false, |a| format!("{:?}", a) == format!("{:?}", tx))
+		},
+		_ => true,
+	}));
+	s
+}
+
 pub fn scenarios(tier: &str) -> Vec<Scenario> {
 	if tier == "thorough" {
 		vec![
+			full_new_page_scenario("growth-pending/new-index-page-full/n3-in-order", 3, 1, 4),
 			multi_scenario("growth-in-batches/n2", 2, 1, 5, 2, None),
 			multi_scenario("growth-in-batches-crash/n1", 1, 0, 5, 2, Some(CrashCfg { torn: 0, recovery_depth: 1, ..Default::default() })),
 			scenario("growth/n3", 1, 3, 1, None),
@@ -256,7 +297,7 @@ pub fn scenarios(tier: &str) -> Vec<Scenario> {
 		]
 	} else {
 		// (the growth-in-batches scenario comes last: it is the most expensive one and takes what is left of the budget)
-		vec![lane_scenario("page-search-edges/n4", 4, 0), scenario("growth/n1", 1, 1, 1, None), pending_scenario("growth-pending/n2", 2, 0), scenario("growth-crash/n1-growth-only", 9, 1, 0, Some(CrashCfg { torn: 0, recovery_depth: 1, ..Default::default() })), multi_scenario("growth-in-batches/n1-one-transaction", 1, 1, 5, 1, None)]
+		vec![lane_scenario("page-search-edges/n4", 4, 0), full_new_page_scenario("growth-pending/new-index-page-full/n2-in-order", 2, 0, 1), scenario("growth/n1", 1, 1, 1, None), pending_scenario("growth-pending/n2", 2, 0), scenario("growth-crash/n1-growth-only", 9, 1, 0, Some(CrashCfg { torn: 0, recovery_depth: 1, ..Default::default() })), multi_scenario("growth-in-batches/n1-one-transaction", 1, 1, 5, 1, None)]
 	}
 }
 
